@@ -591,8 +591,8 @@ pub fn run_case(prop: StepProp, ctx: &Ctx, b: &mut Batch, case: &StepCase) {
 
 pub fn run(prop: StepProp, tier: Tier, seed: u64) -> i32 {
     let ctx = Ctx::new(prop.id(), tier, seed, "exploration");
-    let n_random = tier.pick(3_000, 40_000);
-    let n_worlds_exh = tier.pick(6, 48);
+    let n_random = tier.pick(3_000, 200_000);
+    let n_worlds_exh = tier.pick(6, 96);
     let shards = 64;
     par_shards(shards, crate::util::n_threads(), |sh| {
         let mut b = Batch::default();
@@ -709,7 +709,7 @@ fn bias_workload(ctx: &Ctx, tier: Tier, seed: u64) -> Value {
 
 /// C17 differential: same seed and problem, RRT vs RRT*: same last state, RRT* not longer.
 fn rrt_vs_star(ctx: &Ctx, tier: Tier, seed: u64) -> Value {
-    let n = tier.pick(1_500, 20_000);
+    let n = tier.pick(1_500, 100_000);
     let shards = 64;
     par_shards(shards, crate::util::n_threads(), |sh| {
         let mut b = Batch::default();
